@@ -211,10 +211,14 @@ def make_traj(md, case):
 
 def fresh(md, w, idx=None):
     """a fresh Trajectory (independent arrays) of the frames idx"""
+    # whole-trajectory evaluations share one Topology object for the length of the run (as repeated analyses of one loaded
+    # trajectory do); every other evaluation gets its own copy (as t[i] / t[idx] give): anything a function leaves behind on
+    # the topology object then shows as a difference between the two
+    top = w['top'] if idx is None else w['top'].copy()
     if idx is None:
         idx = np.arange(len(w['xyz']))
     idx = np.asarray(idx)
-    return md.Trajectory(w['xyz'][idx].copy(), w['top'], unitcell_lengths=None if w['L'] is None else w['L'][idx].copy(),
+    return md.Trajectory(w['xyz'][idx].copy(), top, unitcell_lengths=None if w['L'] is None else w['L'][idx].copy(),
                          unitcell_angles=None if w['A'] is None else w['A'][idx].copy())
 
 
@@ -225,9 +229,10 @@ def _pairs(n, seed, k=6, width=2):
 
 def evaluate(md, name, w, idx, fseed):
     """per-frame results of function `name` on a fresh trajectory of frames idx -> list (one entry per frame)"""
+    whole = idx is None
     if idx is None:
         idx = list(range(len(w['xyz'])))
-    t = fresh(md, w, idx)
+    t = fresh(md, w, None if whole else idx)
     n = t.n_atoms
     ref = fresh(md, w, [0])                      # reference conformation: always the workload's frame 0
     if name == 'distances_opt':
